@@ -284,21 +284,8 @@ func (e *Env) derefVal(v Val) (Val, error) {
 		return Val{}, e.errf("dereference of non-pointer %s", v.Ty)
 	}
 	et := pt.Elem()
-	if st, isS := et.Underlying().(*types.Struct); isS {
-		u.sortOf(et)
-		var parts []string
-		for i := 0; i < st.NumFields(); i++ {
-			comp, _ := u.fieldComp(et, st.Field(i).Name())
-			parts = append(parts, fmt.Sprintf("(select %s %s)", e.heap(comp), v.T))
-		}
-		for _, g := range u.ghostFields(et) {
-			comp, _ := u.fieldComp(et, g.name)
-			parts = append(parts, fmt.Sprintf("(select %s %s)", e.heap(comp), v.T))
-		}
-		if len(parts) == 0 {
-			return Val{T: u.structCtor(et), Ty: et}, nil
-		}
-		return Val{T: "(" + u.structCtor(et) + " " + strings.Join(parts, " ") + ")", Ty: et}, nil
+	if _, isS := et.Underlying().(*types.Struct); isS {
+		return Val{T: u.structObjTerm(e.heap, v.T, et), Ty: et}, nil
 	}
 	if at, isA := et.Underlying().(*types.Array); isA {
 		comp, _ := u.elemComp(at.Elem())
@@ -412,12 +399,26 @@ func (e *Env) selectField(v Val, name string) (Val, error) {
 		return Val{}, e.errf("no field %s in %s", name, v.Ty)
 	}
 	cur := v
-	for _, idx := range index {
+	interior := false
+	_ = interior
+	for k, idx := range index {
 		ty := cur.Ty
 		if pt, isPtr := ty.Underlying().(*types.Pointer); isPtr && cur.Addr == nil {
 			st := pt.Elem().Underlying().(*types.Struct)
+			ft := st.Field(idx).Type()
+			if isFlattened(ft) {
+				sub := Val{T: u.subRef(pt.Elem(), st.Field(idx).Name(), cur.T), Ty: types.NewPointer(ft)}
+				if k == len(index)-1 {
+					return e.derefVal(sub)
+				}
+				// continue through the nested object by reference
+				cur = sub
+				interior = true
+				continue
+			}
 			comp, _ := u.fieldComp(pt.Elem(), st.Field(idx).Name())
-			cur = Val{T: fmt.Sprintf("(select %s %s)", e.heap(comp), cur.T), Ty: st.Field(idx).Type()}
+			cur = Val{T: fmt.Sprintf("(select %s %s)", e.heap(comp), cur.T), Ty: ft}
+			interior = false
 			continue
 		}
 		if cur.Addr != nil {
@@ -693,11 +694,11 @@ func (e *Env) evalCall(t *ECall) (Val, error) {
 				ref = fmt.Sprintf("(s.base %s)", v.T)
 			}
 			if fname == "allocated" {
-				return Val{T: fmt.Sprintf("(select %s %s)", e.heap(allocComp), ref), Ty: types.Typ[types.Bool]}, nil
+				return Val{T: fmt.Sprintf("(select %s (refroot %s))", e.heap(allocComp), ref), Ty: types.Typ[types.Bool]}, nil
 			}
 			c := *e
 			c.inOld = true
-			return Val{T: fmt.Sprintf("(and (not (= %s 0)) (not (select %s %s)) (select %s %s))", ref, c.heap(allocComp), ref, e.heap(allocComp), ref), Ty: types.Typ[types.Bool]}, nil
+			return Val{T: fmt.Sprintf("(and (not (= %[1]s 0)) (= (refroot %[1]s) %[1]s) (= (refkind %[1]s) 0) (not (select %[2]s %[1]s)) (select %[3]s %[1]s))", ref, c.heap(allocComp), e.heap(allocComp)), Ty: types.Typ[types.Bool]}, nil
 		case "pow2":
 			v, err := e.Eval(t.Args[0])
 			if err != nil {
